@@ -117,6 +117,27 @@ type Parser struct {
 
 	// Are we inside a function?
 	function bool
+
+	// depth counts how deeply the expression (or block) which is
+	// being parsed is nested inside others.
+	depth int
+}
+
+// MaxNesting is the deepest nesting of expressions and blocks the parser
+// accepts.  The parser is recursive, so without a limit a hostile script
+// made of millions of opening brackets would exhaust the stack of our
+// host, which kills the process rather than returning an error.
+const MaxNesting = 10000
+
+// enter records that we go one level deeper, it returns false - after
+// recording an error - if that is deeper than we are willing to go.
+func (p *Parser) enter() bool {
+	p.depth++
+	if p.depth > MaxNesting {
+		p.errors = append(p.errors, fmt.Sprintf("the script is nested too deeply around %s, the limit is %d", p.curToken.Position(), MaxNesting))
+		return false
+	}
+	return true
 }
 
 // New returns a new parser.
@@ -313,6 +334,11 @@ func (p *Parser) parseExpressionStatement() *ast.ExpressionStatement {
 
 // parse an expression.
 func (p *Parser) parseExpression(precedence int) ast.Expression {
+	defer func() { p.depth-- }()
+	if !p.enter() {
+		return nil
+	}
+
 	postfix := p.postfixParseFns[p.curToken.Type]
 	if postfix != nil {
 		return (postfix())
@@ -689,6 +715,11 @@ func (p *Parser) parseGroupedExpression() ast.Expression {
 
 // parseIfCondition parses an if-expression.
 func (p *Parser) parseIfExpression() ast.Expression {
+	defer func() { p.depth-- }()
+	if !p.enter() {
+		return nil
+	}
+
 	expression := &ast.IfExpression{Token: p.curToken}
 
 	// Look for the condition, surrounded by "(" + ")".
